@@ -43,21 +43,29 @@ Proof.
   unfold resolve_sym. destruct (lookup_sym t s n); [intros H; inversion H; apply same_refl|].
   destruct (negb (t_allow_undef t)); [discriminate|]. unfold fresh. cbn. intros H. inversion H. split; reflexivity.
 Qed.
-Lemma same_to_sx t s e br r y s' : to_sx t s e br = Ok (r, y, s') -> same_sects s s'.
+Lemma same_to_sx_plain t s e br r y s' : to_sx_plain t s e br = Ok (r, y, s') -> same_sects s s'.
 Proof.
-  unfold to_sx. intros H.
-  destruct e as [n v|c|a b|a b|]; try discriminate.
+  unfold to_sx_plain. intros H.
+  destruct e as [n v|c|a b|a b|fam k sub|]; try discriminate.
   - destruct (resolve_sym t s n) as [[y1 s1]|] eqn:E1; cbn [bind] in H; [|discriminate].
     destruct (ref_attrs t v y1 br); cbn [bind] in H; [|discriminate]. inversion H; subst. eapply same_resolve; eauto.
-  - destruct a as [n v| | | |]; try discriminate. destruct b as [|c| | |]; try discriminate.
+  - destruct a as [n v| | | | |]; try discriminate. destruct b as [|c| | | |]; try discriminate.
     destruct (resolve_sym t s n) as [[y1 s1]|] eqn:E1; cbn [bind] in H; [|discriminate].
     destruct (ref_attrs t v y1 br); cbn [bind] in H; [|discriminate]. inversion H; subst. eapply same_resolve; eauto.
-  - destruct a as [n1 v1| | | |]; try discriminate. destruct b as [n2 v2| | | |]; try discriminate.
+  - destruct a as [n1 v1| | | | |]; try discriminate. destruct b as [n2 v2| | | | |]; try discriminate.
     destruct (resolve_sym t s n1) as [[y1 s1]|] eqn:E1; cbn [bind] in H; [|discriminate].
     destruct (negb (Nat.eqb v1 0)); [discriminate|].
     destruct (resolve_sym t s1 n2) as [[y2 s2]|] eqn:E2; cbn [bind] in H; [|discriminate].
     destruct (negb (Nat.eqb v2 0)); [discriminate|]. inversion H; subst.
     eapply same_trans; eapply same_resolve; eauto.
+Qed.
+Lemma same_to_sx t s e br r y s' : to_sx t s e br = Ok (r, y, s') -> same_sects s s'.
+Proof.
+  unfold to_sx. intros H.
+  destruct e as [n v|c|a b|a b|fam k sub|]; try (eapply same_to_sx_plain; exact H).
+  destruct (target_attrs fam k); [|discriminate].
+  destruct (to_sx_plain t s sub br) as [[[r0 y0] s0]|] eqn:E; cbn [bind] in H; [|discriminate].
+  inversion H; subst. eapply same_to_sx_plain; exact E.
 Qed.
 
 (* replacing a section by a tiled one keeps all sections tiled *)
@@ -143,12 +151,12 @@ Proof.
     assert (H1 : all_tiled s1).
     { clear E. revert s1 Ef. generalize (as_len x0). intros base.
       assert (G : forall l acc s1, (forall a, acc = Ok a -> all_tiled a) ->
-                  fold_left (fun acc f => do s0 <- acc; do '(e, ig, s2) <- to_sx t s0 (fixup_expr f len) (call || branch); add_symex s2 (base + fx_off f) e (fx_size f)) l acc = Ok s1 ->
+                  fold_left (fun acc f => do s0 <- acc; do '(e, ig, s2) <- to_sx t s0 (fixup_expr f len) ((call || branch) && negb indirect); add_symex s2 (base + fx_off f) e (fx_size f)) l acc = Ok s1 ->
                   all_tiled s1).
       { induction l as [|f l IH]; intros acc s1 Ha Hf; cbn [fold_left] in Hf; [apply Ha, Hf|].
         eapply IH; [|exact Hf]. intros a Ea.
         destruct acc as [a0|]; cbn [bind] in Ea; [|discriminate].
-        destruct (to_sx t a0 (fixup_expr f len) (call || branch)) as [[[e0 y0] s2]|] eqn:Et; cbn [bind] in Ea; [|discriminate].
+        destruct (to_sx t a0 (fixup_expr f len) ((call || branch) && negb indirect)) as [[[e0 y0] s2]|] eqn:Et; cbn [bind] in Ea; [|discriminate].
         pose proof (same_to_sx _ _ _ _ _ _ _ Et) as Hs. apply (add_symex_tiled _ _ _ _ _ (all_tiled_same _ _ Hs (Ha a0 eq_refl)) Ea). }
       intros s1 Ef. apply (G fx (Ok s) s1); [intros a Ea; inversion Ea; subst; exact H|exact Ef]. }
     destruct (append_data s1 len) as [s2|] eqn:Ea; cbn [bind] in E; [|discriminate].
@@ -400,12 +408,12 @@ Proof.
   { pose proof (step_tiled t sfx s (EInsn len false false false false false fx)) as G. clear G.
     clear E. revert s1 Ef. generalize (as_len x0). intros base.
     assert (G : forall l acc s1, (forall a, acc = Ok a -> all_tiled a) ->
-                fold_left (fun acc f => do s0 <- acc; do '(e, ig, s2) <- to_sx t s0 (fixup_expr f len) (call || branch); add_symex s2 (base + fx_off f) e (fx_size f)) l acc = Ok s1 ->
+                fold_left (fun acc f => do s0 <- acc; do '(e, ig, s2) <- to_sx t s0 (fixup_expr f len) ((call || branch) && negb indirect); add_symex s2 (base + fx_off f) e (fx_size f)) l acc = Ok s1 ->
                 all_tiled s1).
     { induction l as [|f l IH]; intros acc s1 Ha Hf; cbn [fold_left] in Hf; [apply Ha, Hf|].
       eapply IH; [|exact Hf]. intros a Ea.
       destruct acc as [a0|]; cbn [bind] in Ea; [|discriminate].
-      destruct (to_sx t a0 (fixup_expr f len) (call || branch)) as [[[e0 y0] s2]|] eqn:Et; cbn [bind] in Ea; [|discriminate].
+      destruct (to_sx t a0 (fixup_expr f len) ((call || branch) && negb indirect)) as [[[e0 y0] s2]|] eqn:Et; cbn [bind] in Ea; [|discriminate].
       pose proof (same_to_sx _ _ _ _ _ _ _ Et) as Hs. apply (add_symex_tiled _ _ _ _ _ (all_tiled_same _ _ Hs (Ha a0 eq_refl)) Ea). }
     intros s1 Ef. apply (G fx (Ok s) s1); [intros a Ea; inversion Ea; subst; exact H|exact Ef]. }
   destruct (append_data s1 len) as [s2|] eqn:Ea; cbn [bind] in E; [|discriminate].
@@ -430,4 +438,50 @@ Proof.
         inversion Er; subst. eapply all_tiled_same; eauto. }
     match type of E with split_block ?S _ = _ => destruct (split_block_starts_a_fresh_block S _ s' H4 E) as (x' & b' & A & B & C & D & _) end.
     exists x', b'. auto.
+Qed.
+
+(* ===== target-specific expression wrappers (AArch64 :got: / :lo12: / :got_lo12:, MIPS %got / %hi / %lo / %pcrel / %call16) ===== *)
+Lemma to_sx_wrapper : forall t s fam k sub br r y s',
+  to_sx t s (MTarget fam k sub) br = Ok (r, y, s') ->
+  exists extra r0, target_attrs fam k = Some extra /\ to_sx_plain t s sub br = Ok (r0, y, s') /\ r = add_attrs extra r0.
+Proof.
+  intros t s fam k sub br r y s' H. cbn [to_sx] in H. destruct (target_attrs fam k) as [extra|]; [|discriminate H].
+  destruct (to_sx_plain t s sub br) as [[[r0 y0] s0]|] eqn:E; cbn [bind] in H; [|discriminate H].
+  injection H as <- <- <-. exists extra, r0. tauto.
+Qed.
+
+Lemma to_sx_unknown_wrapper : forall t s fam k sub br, target_attrs fam k = None -> to_sx t s (MTarget fam k sub) br = Err UnsupportedErr.
+Proof. intros t s fam k sub br H. cbn [to_sx]. rewrite H. reflexivity. Qed.
+
+Lemma nmem_In' : forall x l, nmem x l = true -> In x l.
+Proof.
+  intros x l H. unfold nmem in H. apply existsb_exists in H as (y & Hy & E). apply Nat.eqb_eq in E. subst. exact Hy.
+Qed.
+
+(* the wrapper only adds attributes: symbol and addend are those of the wrapped expression, every attribute of either side is there,
+   and no attribute comes from anywhere else *)
+Lemma add_attrs_spec : forall extra e,
+  match e, add_attrs extra e with
+  | SConst c y at_, SConst c' y' at' => c' = c /\ y' = y /\ (forall a, In a at' <-> In a extra \/ In a at_)
+  | SAddr a b, SAddr a' b' => a' = a /\ b' = b
+  | _, _ => False
+  end.
+Proof.
+  intros extra [c y at_|a b]; cbn [add_attrs]; [|tauto]. split; [reflexivity|]. split; [reflexivity|].
+  intros a. rewrite in_app_iff, filter_In. split.
+  - intros [H|[H _]]; tauto.
+  - intros [H|H]; [left; exact H|]. destruct (nmem a extra) eqn:E.
+    + left. apply nmem_In'. exact E.
+    + right. split; [exact H|cbn beta; try rewrite E; reflexivity].
+Qed.
+
+(* the PLT attribute is inferred (no @variant written) only for the operand of a direct transfer to a symbol without definition in a
+   position-independent x86 ELF module *)
+Lemma inferred_plt : forall t y b l, ref_attrs t 0 y b = Ok l ->
+  (l = [PLT] /\ b = true /\ t_pie t = true /\ exists p, sy_ref y = RProxy p) \/ l = [].
+Proof.
+  intros t y b l H. unfold ref_attrs in H. cbn [Nat.eqb negb] in H.
+  destruct (t_pie t); cbn [andb] in H; [|injection H as <-; right; reflexivity].
+  destruct (sy_ref y) as [blk|p| |] eqn:Er; cbn [andb] in H; try (injection H as <-; right; reflexivity).
+  destruct b; injection H as <-; [left; repeat split; exists p; reflexivity|right; reflexivity].
 Qed.
